@@ -97,7 +97,7 @@ func streamPreds(seed uint64, n int, driver string, tier string) (*Summary, erro
 	if n > 20000 {
 		maxLen = 3
 	}
-	sum.Rule = fmt.Sprintf("every built-in test: strings exhaustive up to length %d over an 18-symbol alphabet containing the ASCII range edges (/ 0 9 : @ A Z [ ` a z {) and 2/3/4-byte runes, x parameters (lengths 0..4, prefixes/substrings from the alphabet, OneOf sets); numbers at parameter-1/parameter/parameter+1 incl. NaN, +-0, +-Inf; times equal in different zones; slices of length 0..4; plus %d random; non-trivial = every case (each decides one predicate on one subject); distinct = distinct case line", maxLen, n)
+	sum.Rule = fmt.Sprintf("every built-in test: strings exhaustive up to length %d over an 18-symbol alphabet containing the ASCII range edges (/ 0 9 : @ A Z [ ` a z {) and 2/3/4-byte runes (for UUID and Email also a valid subject with every position replaced by every ASCII byte), x parameters (lengths 0..4, prefixes/substrings from the alphabet, OneOf sets); numbers at parameter-1/parameter/parameter+1 incl. NaN, +-0, +-Inf; times equal in different zones; slices of length 0..4; plus %d random; non-trivial = every case (each decides one predicate on one subject); distinct = distinct case line", maxLen, n)
 	r := rng.New(seed)
 	type pc struct {
 		kind, elem string
@@ -156,6 +156,26 @@ func streamPreds(seed uint64, n int, driver string, tier string) (*Summary, erro
 	for _, t := range strTests {
 		for _, s := range subjects {
 			cases = append(cases, pc{"str", "", t, eng.D{K: "s", S: s}})
+		}
+	}
+	// UUID / Email: a valid subject with every position replaced by every ASCII byte (control bytes included)
+	for _, t := range strTests {
+		var base string
+		switch t.Name {
+		case "uuid":
+			base = "123e4567-e89b-12d3-A456-42661417400f"
+		case "email":
+			base = "ab.c+d@e-f.gh"
+		default:
+			continue
+		}
+		for pos := 0; pos < len(base); pos++ {
+			for b := 0; b < 128; b++ {
+				if byte(b) == base[pos] {
+					continue
+				}
+				cases = append(cases, pc{"str", "", t, eng.D{K: "s", S: base[:pos] + string(rune(b)) + base[pos+1:]}})
+			}
 		}
 	}
 	// numbers
